@@ -505,8 +505,22 @@ def job_native(prog, chk, tier, seed):
             bad = rnd.choice(['§', '`', '€', '\\'])
             t = text[:s] + (('' if kind == 'del' else bad) + ('' if kind != 'ins' else text[s:e])) + text[e:]
             cases.append((t, s))
+    # a block comment whose closer is garbled (unterminated up to the end of the input): the error belongs to the text from the
+    # definition before the comment on - not to the head of the source - and a file source keeps its path
+    cm = ["Mod DEFINITIONS AUTOMATIC TAGS ::= BEGIN", "  A ::= INTEGER (0..5)", "  /* a comment", "     over two lines */", "  B ::= BOOLEAN /* tail */", "  C ::= NULL", "END"]
+    for nlc in ('\n', '\r\n'):
+        text = nlc.join(cm)
+        for m in re.finditer(r'\*/', text):
+            for repl in ('*\\', '* /', '*'):
+                cases.append((text[:m.start()] + repl + text[m.end():], (m.start(), text.index('A ::='))))
+        two = text + nlc + text.replace('Mod ', 'Mod2 ')
+        k = two.rindex('*/')
+        cases.append((two[:k] + '*\\' + two[k + 2:], (k, two.index('Mod2 '))))
     try:
         for t, pos in cases:
+            min_off = None
+            if isinstance(pos, tuple):
+                pos, min_off = pos
             out = runner.compile(t)
             if out.get('ok'):
                 continue
@@ -520,6 +534,8 @@ def job_native(prog, chk, tier, seed):
             problems = []
             if not (0 <= rep['offset'] <= len(b)):
                 problems.append(f"offset {rep['offset']} outside the input of {len(b)} bytes")
+            elif min_off is not None and rep['offset'] < len(t[:min_off].encode()):
+                problems.append(f"offset {rep['offset']} lies before the definition that precedes the unterminated comment (offset {min_off})")
             else:
                 want_line = 1 + b[:rep['offset']].count(b'\n')
                 if rep['line'] != want_line:
